@@ -91,42 +91,6 @@ Proof.
     cbn [find]. destruct (String.eqb (t_name x) n); [reflexivity|]. now apply IH.
 Qed.
 
-(* the per-table function of every action that goes through update_table *)
-Definition table_fn (a : action) (t : table_def) : result table_def planner_error :=
-  match a with
-  | AddColumn table column _ =>
-      if has_column (c_name column) t then Err (ColumnExists table (c_name column))
-      else match normalize (mkTable (t_name t) (t_description t) (t_columns t ++ [column]) (t_constraints t)) with
-           | Err _ => Err TableValidation
-           | Ok n => Ok n
-           end
-  | RenameColumn table from to =>
-      match update_first_col from (set_name to) (t_columns t) with
-      | None => Err (ColumnNotFound table from)
-      | Some cols => Ok (mkTable (t_name t) (t_description t) cols
-                           (map (rename_column_in_constraint from to) (t_constraints t)))
-      end
-  | DeleteColumn table column =>
-      if has_column column t then
-        Ok (mkTable (t_name t) (t_description t)
-              (filter (fun c => negb (String.eqb (c_name c) column)) (t_columns t))
-              (drop_column_from_constraints column (t_constraints t)))
-      else Err (ColumnNotFound table column)
-  | ModifyColumnType table column new_type _ => update_column table column (set_type new_type) t
-  | ModifyColumnNullable table column nullable _ => update_column table column (set_nullable nullable) t
-  | ModifyColumnDefault table column new_default =>
-      update_column table column (set_default (option_map default_of_string new_default)) t
-  | ModifyColumnComment table column new_comment => update_column table column (set_comment new_comment) t
-  | AddConstraint table k =>
-      if contains_constraint k (t_constraints t) then Ok t
-      else Ok (mkTable (t_name t) (t_description t) (t_columns t) (t_constraints t ++ [k]))
-  | RemoveConstraint table k =>
-      Ok (mkTable (t_name t) (t_description t)
-            (clear_inline table k (t_columns t))
-            (filter (fun c => negb (constraint_eqb c k)) (t_constraints t)))
-  | _ => Ok t
-  end.
-
 Lemma table_fn_name a t t' : table_fn a t = Ok t' -> t_name t' = t_name t.
 Proof.
   destruct a; cbn [table_fn]; intro H; try (inversion H; reflexivity).
@@ -174,40 +138,6 @@ Proof.
 Qed.
 
 (* ---------- per-table projection ---------- *)
-Definition act_table (a : action) : option string :=
-  match a with
-  | CreateTable t _ _ | DeleteTable t | AddColumn t _ _ | RenameColumn t _ _ | DeleteColumn t _
-  | ModifyColumnType t _ _ _ | ModifyColumnNullable t _ _ _ | ModifyColumnDefault t _ _
-  | ModifyColumnComment t _ _ | AddConstraint t _ | RemoveConstraint t _ => Some t
-  | RenameTable _ _ | RawSql _ => None
-  end.
-Definition on_table (n : string) (a : action) : bool :=
-  match act_table a with Some t => String.eqb t n | None => false end.
-
-(* what an action does to the table registered under its name (None: no such table) *)
-Definition apply_table (o : option table_def) (a : action) : result (option table_def) planner_error :=
-  match a with
-  | CreateTable table columns constraints =>
-      match o with
-      | Some _ => Err (TableExists table)
-      | None => match normalize (mkTable table None columns constraints) with
-                | Err _ => Err TableValidation
-                | Ok n => Ok (Some n)
-                end
-      end
-  | DeleteTable table => match o with Some _ => Ok None | None => Err (TableNotFound table) end
-  | RenameTable _ _ | RawSql _ => Ok o
-  | _ => match o with
-         | None => Err (TableNotFound "")
-         | Some t => match table_fn a t with Ok t' => Ok (Some t') | Err e => Err e end
-         end
-  end.
-Fixpoint proj_all (o : option table_def) (l : list action) : result (option table_def) planner_error :=
-  match l with
-  | [] => Ok o
-  | a :: r => match apply_table o a with Ok o' => proj_all o' r | Err e => Err e end
-  end.
-
 Lemma NoDup_map_filter_names (p : table_def -> bool) : forall s,
   NoDup (map t_name s) -> NoDup (map t_name (filter p s)).
 Proof.
